@@ -111,6 +111,7 @@ type vfC19Step struct {
 	CD     bool
 	Wire   bool
 	Proto  string
+	Ver    uint8 // EDNS version of the query (non-zero: answered BADVERS by sdns itself)
 }
 
 type vfC19Case struct {
@@ -255,10 +256,32 @@ func vfC19Run(t *testing.T, dir string, c *vfC19Case) (violation string, stats m
 			}
 			client := netip.MustParseAddr(st.Client)
 			q := &vfgen.QuerySpec{ID: uint16(500 + si), Name: st.Name, Qtype: dns.TypeA, Qclass: dns.ClassINET, RD: true, CD: st.CD, EDNS: st.EDNS || len(st.Opts) > 0, UDPSize: 1232, Options: st.Opts}
+			q.Version = st.Ver
 			raw := q.Pack()
 			before := up.N()
 			r := w.Ask(raw, st.Proto, net.IP(client.AsSlice()), 4000, st.Wire)
 			synctest.Wait()
+			if st.Ver != 0 && q.EDNS {
+				// sdns answers this one itself (BADVERS): nothing goes upstream, and no client subnet comes back - neither
+				// the client's own option nor the form prepared for forwarding
+				trace = append(trace, fmt.Sprintf("t=%s %s from %s with EDNS version %d opts=%v", now, st.Name, st.Client, st.Ver, st.Opts))
+				if up.N() != before {
+					fail("step %d: a query with EDNS version %d was sent upstream", si, st.Ver)
+					return
+				}
+				if r.Msg != nil {
+					if opt := r.Msg.IsEdns0(); opt != nil {
+						for _, o := range opt.Option {
+							if e, ok := o.(*dns.EDNS0_SUBNET); ok {
+								fail("step %d: the reply (rcode %d) to an EDNS version %d query carries the client-subnet option %s", si, r.Msg.Rcode, st.Ver, e.String())
+								return
+							}
+						}
+					}
+				}
+				stats["badvers-with-options"]++
+				continue
+			}
 			up.mu.Lock()
 			calls := append([]vfC19Call(nil), up.calls[before:]...)
 			up.mu.Unlock()
@@ -387,7 +410,19 @@ func vfC19Gen(rt *rapid.T) *vfC19Case {
 			c.Steps = append(c.Steps, vfC19Step{Sleep: time.Duration(rapid.SampledFrom([]int{1, 5, 8, 100, 160, 280, 301}).Draw(rt, "sleep")) * time.Second})
 			continue
 		}
-		st := vfC19Step{Name: name, Client: rapid.SampledFrom(clients).Draw(rt, "client"), EDNS: rapid.Bool().Draw(rt, "edns"), CD: rapid.IntRange(0, 7).Draw(rt, "cd") == 0,
+		if k := len(c.Steps); k > 0 && rapid.IntRange(0, 4).Draw(rt, "again") == 0 {
+			// the same client asks the same thing again (possibly after a sleep): hits on what its first question stored
+			for j := k - 1; j >= 0; j-- {
+				if c.Steps[j].Name != "" && c.Steps[j].Ver == 0 {
+					again := c.Steps[j]
+					again.Wire = rapid.Bool().Draw(rt, "wire")
+					c.Steps = append(c.Steps, again)
+					break
+				}
+			}
+			continue
+		}
+		st := vfC19Step{Name: name, Client: rapid.SampledFrom(clients).Draw(rt, "client"), EDNS: rapid.Bool().Draw(rt, "edns"), CD: rapid.IntRange(0, 7).Draw(rt, "cd") == 0, Ver: rapid.SampledFrom([]uint8{0, 0, 0, 0, 0, 0, 0, 0, 0, 0, 0, 0, 0, 0, 0, 0, 0, 0, 0, 0, 0, 0, 1, 255}).Draw(rt, "ednsversion"),
 			Wire: rapid.Bool().Draw(rt, "wire"), Proto: rapid.SampledFrom([]string{"udp", "tcp"}).Draw(rt, "proto")}
 		if rapid.IntRange(0, 3).Draw(rt, "othername") == 0 {
 			st.Name = rapid.SampledFrom([]string{"s0.test.", "s24.test.", "s16.test.", "none.test."}).Draw(rt, "name2")
